@@ -57,12 +57,36 @@ class Module(object):
 
 class _CanonIf(ast.NodeTransformer):
     """Canonical orientation of two-armed conditionals: `if not c: A else: B` is analysed as `if c: B else: A`
-    (also when B is an elif chain: `else: if ..` and `elif ..` are the same tree), so that rules do not depend on which arm a programmer wrote first."""
+    (also when B is an elif chain: `else: if ..` and `elif ..` are the same tree); `if c: pass else: B` as `if not c: B`
+    (with `not (a in b)` written `a not in b`); a guard `if a or b: ...; continue|break|return|raise` as the two guards
+    `if a: ...` `if b: ...` - so that rules do not depend on which of these spellings a programmer chose."""
+
+    _NEG = {ast.In: ast.NotIn, ast.NotIn: ast.In, ast.Eq: ast.NotEq, ast.NotEq: ast.Eq, ast.Is: ast.IsNot,
+            ast.IsNot: ast.Is}
+
+    def _negate(self, test):
+        if isinstance(test, ast.UnaryOp) and isinstance(test.op, ast.Not):
+            return test.operand
+        if isinstance(test, ast.Compare) and len(test.ops) == 1 and type(test.ops[0]) in self._NEG:
+            return ast.copy_location(ast.Compare(left=test.left, ops=[self._NEG[type(test.ops[0])]()],
+                                                 comparators=test.comparators), test)
+        return ast.copy_location(ast.UnaryOp(op=ast.Not(), operand=test), test)
 
     def visit_If(self, node):
         self.generic_visit(node)
         if node.orelse and isinstance(node.test, ast.UnaryOp) and isinstance(node.test.op, ast.Not):
             node.test, node.body, node.orelse = node.test.operand, node.orelse, node.body
+        # `if c: pass else: B`  ==  `if not c: B`
+        if node.orelse and all(isinstance(s, ast.Pass) for s in node.body):
+            node.test, node.body, node.orelse = self._negate(node.test), node.orelse, []
+        # `if a or b: <body ending in a jump>`  ==  `if a: <body>` followed by `if b: <body>`
+        if not node.orelse and isinstance(node.test, ast.BoolOp) and isinstance(node.test.op, ast.Or) and \
+                node.body and isinstance(node.body[-1], (ast.Continue, ast.Break, ast.Return, ast.Raise)):
+            import copy
+            out = []
+            for v in node.test.values:
+                out.append(ast.copy_location(ast.If(test=v, body=copy.deepcopy(node.body), orelse=[]), node))
+            return out
         return node
 
     def visit_IfExp(self, node):
